@@ -33,7 +33,7 @@ var (
 )
 
 func isPasswdOp(op string) bool {
-	return op == "reset-pw" || op == "pw" || op == "pwq" || op == "pwcu" || op == "pw-money"
+	return op == "reset-pw" || op == "pw" || op == "pwq" || op == "pwcu" || op == "pw-money" || op == "pw-store"
 }
 
 var (
@@ -257,6 +257,60 @@ func doPasswd(line string, ws []string) string {
 				run.Fail(i, "passwd:frame", fmt.Sprintf("session modify of uid %d changed byte %d outside its record / length %d -> %d | op: %s", uid, d, len(before), len(after), trunc(opLine, 80)))
 			} else if !bytes.Equal(before[lo:lo+int64(offMoney)], after[lo:lo+int64(offMoney)]) {
 				run.Fail(i, "passwd:frame", fmt.Sprintf("session modify of uid %d changed bytes in front of the money field (user id, password, level …) | op: %s", uid, trunc(opLine, 80)))
+			}
+		}
+		return out
+
+	case ws[0] == "pw-store" && len(ws) == 4:
+		// a holder loads the record; the Money field is modified in place and acknowledged; the holder stores
+		// its EARLIER copy (ptt.SetUserPerm -> passwdSyncUpdate -> cmbbs.PasswdUpdate)
+		uid, ok := parseInt(ws[1], -1<<31, 1<<31-1)
+		money, ok2 := parseInt(ws[2], -1<<31, 1<<31-1)
+		perm, ok3 := parseInt(ws[3], 0, 1<<32-1)
+		if !ok || !ok2 || !ok3 {
+			return bad()
+		}
+		pwDirty = true
+		pb, before := readOpt(pwPath())
+		loaded, acked, stored := false, false, false
+		res := hx.CallT(8*time.Second, func() string {
+			copyOfRecord, err := ptt.InitCurrentUserByUID(ptttype.UID(uid))
+			loaded = err == nil
+			_, err = cache.SetUMoney(ptttype.UID(uid), int32(money))
+			acked = err == nil
+			if loaded {
+				_, err = ptt.SetUserPerm(opUser, ptttype.UID(uid), copyOfRecord, ptttype.PERM(perm))
+				stored = err == nil
+			}
+			return "done"
+		})
+		pa, after := readOpt(pwPath())
+		out := stateStr(pa, after)
+		if res != "done" {
+			out = res
+		}
+		i := run.Op(line, out, fmt.Sprintf("pw-store:%s:loaded=%v:acked=%v:stored=%v", uidClass(uid), loaded, acked, stored), true)
+		lo, hi := (uid-1)*int64(pwSz), uid*int64(pwSz)
+		switch {
+		case res != "done":
+			fail(i, "passwd:lost-field-update", "%s %s", res, hx.LastPanic)
+		case !(uid >= 1 && uid <= maxUsers):
+			if pa != pb || !bytes.Equal(before, after) {
+				fail(i, "passwd:refused-uid", "uid %d: .PASSWDS changed", uid)
+			}
+		case loaded && acked && stored && pb && int64(len(before)) >= hi:
+			offLevel := int64(unsafe.Offsetof(ptttype.USEREC_RAW.UserLevel))
+			want := append([]byte{}, before...)
+			copy(want[lo+int64(offMoney):], le32(int32(money))) // the acknowledged in-place modify survives the store
+			copy(want[lo+offLevel:], le32(int32(uint32(perm)))) // the store's own change
+			if !bytes.Equal(after, want) {
+				d := firstDiffOutside(want, after, 0, 0)
+				what := "another byte"
+				if int64(d) >= lo+int64(offMoney) && int64(d) < lo+int64(offMoney)+4 {
+					what = fmt.Sprintf("the Money field: it holds %d, the value before the acknowledged update was %d", int32(binary.LittleEndian.Uint32(after[lo+int64(offMoney):])), int32(binary.LittleEndian.Uint32(before[lo+int64(offMoney):])))
+				}
+				fail(i, "passwd:lost-field-update", "uid %d: record loaded, money set to %d in place (acknowledged), then the earlier copy stored with level %#x: byte %d differs from the expected file (%s)",
+					uid, money, perm, d, what)
 			}
 		}
 		return out
@@ -493,6 +547,23 @@ func generatePasswd() {
 		do(fmt.Sprintf("pwcu %d %s 0", uid, idHex(pair[1])))                                                 // the new owner: accepted
 		do(fmt.Sprintf("pwcu %d %s 0", []int{0, maxUsers + 1, uid%maxUsers + 1}[r.Intn(3)], idHex(pair[1]))) // right id, wrong slot
 	}
+
+	// an acknowledged in-place field modify must survive a later whole-record store of an EARLIER copy
+	nls := 6
+	if run.Thorough() {
+		nls = 80
+	}
+	do("reset-pw " + hx.Hex(file(maxUsers, 0)))
+	for h := 0; h < nls; h++ {
+		uid := []int{1, maxUsers, 2 + r.Intn(maxUsers-2), maxUsers + 1, 0, 1 + r.Intn(maxUsers)}[h%6]
+		do(fmt.Sprintf("pw-store %d %d %d", uid, int32(r.U64()>>36)+1, uint32(r.U64())))
+		if h%3 == 0 {
+			do(fmt.Sprintf("pwq whole %d", uid))
+		}
+	}
+	pass(file(3, 0), false, nil)
+	do(fmt.Sprintf("pw-store 2 %d %d", 500+r.Intn(1000), uint32(r.U64())))
+	do(fmt.Sprintf("pw-store 4 %d %d", 500+r.Intn(1000), uint32(r.U64()))) // no record 4 to load: only the field update happens
 
 	// concurrent money updates of different users (cache.SetUMoney / DeUMoney): only the addressed 4-byte fields change
 	nb := 6
